@@ -222,6 +222,7 @@ class _FileReader(_UnicodeReader[AnyStr]):
     def close(self) -> None:
         """Stop forwarding data from the file"""
 
+        self._paused = True
         self._file.close()
 
 
@@ -290,11 +291,18 @@ class _FileWriter(_UnicodeWriter[AnyStr]):
 
         self._file = file
         self._needs_close = needs_close
+        self._failed = False
 
     def write(self, data: AnyStr) -> None:
         """Write data to the file"""
 
-        self._file.write(self.encode(data))
+        # If the file can no longer be written, discard what's left
+        # rather than have the error take down the whole connection
+        if not self._failed:
+            try:
+                self._file.write(self.encode(data))
+            except OSError:
+                self._failed = True
 
     def write_eof(self) -> None:
         """Close output file when end of file is received"""
@@ -454,6 +462,10 @@ class _PipeWriter(_UnicodeWriter[AnyStr], asyncio.BaseProtocol):
 
     def connection_lost(self, exc: Optional[Exception]) -> None:
         """Handle closing of the pipe"""
+
+        # A pipe which went away while writing to it was paused won't
+        # ask for more, so don't keep holding up the channel for it
+        self._process.resume_feeding(self._datatype)
 
         self._close_event.set()
 
@@ -1130,7 +1142,15 @@ class SSHProcess(SSHStreamSession, Generic[AnyStr]):
             return
 
         assert self._chan is not None
-        self._chan.write(data, datatype)
+
+        try:
+            self._chan.write(data, datatype)
+        except BrokenPipeError:
+            # The channel was closed, or EOF was sent on it, while this
+            # source was still being read, so there's nowhere left to
+            # send its data
+            self._readers[datatype].close()
+            self.clear_reader(datatype)
 
     def feed_eof(self, datatype: DataType) -> None:
         """Feed EOF to the channel"""
